@@ -7,6 +7,7 @@ import (
 	"time"
 
 	"verif/checks/c09"
+	"verif/checks/c16"
 	"verif/checks/corpus"
 	"verif/checks/sc"
 	"verif/gen"
@@ -117,6 +118,14 @@ func run(c *ev.Ctx) {
 			c.Violate(dir+";recursion-cut-off-policy", desc, cs)
 			return
 		}
+		if dir == "example-error" && shortcutWithOrRule(cs) {
+			// Known class: a type shortcut that also carries a written or rule of JSON types passes
+			// Check and has no example. Decided by construction: the case holds such a node AND without
+			// the or rules on those nodes the schema has an example that passes every clause.
+			c.Inc("shortcut_with_or_rule")
+			c.Violate("example-error;type-shortcut-with-or-rule", desc, cs)
+			return
+		}
 		if dir != "" {
 			red := ev.Reduce(cs, sc.GraphCands, func(x sc.Case) bool {
 				ok2, _, _, _, d2 := example(x)
@@ -134,6 +143,43 @@ func run(c *ev.Ctx) {
 	// two-type graphs with two-property bodies: a type that recurses both
 	// directly and through an alias/or-alias of itself
 	c09.ForEachSchemaDeep(func(cs sc.Case) { each("c09deep", cs) })
+	// C16's family: one example value per kind of rule (numeric bounds, precision, regex, const, enum by
+	// list and by name, or sets, shortcuts with rules, allOf, additionalProperties, item counts), alone,
+	// as a property next to another one, optional, inside an array
+	c16.AstFamily(func(cs sc.Case) { each("ast", cs) })
+}
+
+// shortcutWithOrRule: the case has type-shortcut nodes carrying an or rule, and dropping those or rules (and
+// nothing else) yields a schema whose Example() passes every clause.
+func shortcutWithOrRule(cs sc.Case) bool {
+	x := cs.Clone()
+	found := false
+	strip := func(n *gen.Node) {
+		n.Walk(func(m *gen.Node) {
+			if m.Kind != gen.KRef || m.Rule("or") == nil {
+				return
+			}
+			found = true
+			var keep []gen.Rule
+			for _, r := range m.Rules {
+				if r.Name != "or" {
+					keep = append(keep, r)
+				}
+			}
+			m.Rules = keep
+		})
+	}
+	strip(x.Root)
+	for _, t := range x.Types {
+		if t.Body != nil {
+			strip(t.Body)
+		}
+	}
+	if !found {
+		return false
+	}
+	ok, _, _, _, dir := example(x)
+	return ok && dir == ""
 }
 
 func replay(raw stdjson.RawMessage) (bool, string) {
